@@ -219,7 +219,7 @@ def run(ck):
                          ck.save_replay("impl_%s" % tag, {"tlc.out": r.out}))
             continue
         g = vf.Graph.load(dot); os.remove(dot)
-        paths, covered, total = g.transition_cover(ck.rng, limit=None if thorough else 70)
+        paths, covered, total = g.transition_cover(ck.rng, limit=400 if thorough else 70)
         paths += g.random_walks(ck.rng, 30 if thorough else 8)
         ck.note("%s %s N=%d (%s): %d states, %d edges, %d behaviours (%d/%d edges)" % (
             tag, mode, n, prog_text(prog), r.distinct, g.n_edges(), len(paths), covered, total))
